@@ -40,7 +40,7 @@ CLAIMS.update({
          "Correspondence: iter().collect(), rev().collect(), COUNT for enums of 0..12 variants, unit/tuple/named kinds, type/const generics, eight disabled placements.",
          "DESIGN.md §6 C04", ""),
  'C05': ("Lean 4 proof: refinement of the (idx, back_idx) machine with usize = Nat mod 2^64 (debug: panic, release: wrap) to a list deque, every history by induction; correspondence in dev and release profiles",
-         "lean/StrumProofs/C05.lean + Lemmas/Iter.lean: nth_refines (all n), nextBack_refines, nthBack_refines (core's default body), sizeHint_refines, step_refines (clones as slots), run_refines / iter_refines (all histories, all depths), "
+         "lean/StrumProofs/C05.lean + Lemmas/Iter.lean: collectFuel_eq / collectBackFuel_eq (what `fold` / `count` / `last` / `rfold` consume from any state satisfying the invariant is exactly the abstract remaining deque, forwards / backwards), nth_refines (all n), nextBack_refines, nthBack_refines (core's default body), sizeHint_refines, step_refines (clones as slots), run_refines / iter_refines (all histories, all depths), "
          "never_panics, debug_eq_release, fused, clones_independent, iter_send_sync; F1 regression witnesses pinned_nth_panics_debug / pinned_nth_rewinds_release. "
          "Correspondence: N = 0..8 (plain and disabled+generic), all histories to depth 2-3 (quick) / up to N+1 (thorough) with k in {0..N+1, MAX-1, MAX}, random 30-op histories with clones, size_hint, skip, step_by, both profiles, plus a Python reference deque.",
          "DESIGN.md §6 C05", "Partial: Send + Sync is rustc's auto-trait inference; a three-line model + a compile-time assertion (incl. T = Rc<u8>). Hypothesis 2N+1 < 2^64 (N = number of enabled variants)."),
